@@ -29,7 +29,6 @@ SET_RELATIONS = {  # circulators whose incident relation is a set (each neighbou
     # added by the rule audit: relations that are sets by the statement although the code enumerates them one-to-one
     "VertexVertexIter": "a neighbour vertex is reached once per outgoing halfedge: parallel (duplicate) edges repeat it",
     "CellFaceIterImpl": "a face is reached once per halfface of the cell: a cell that contains both sides of a face repeats it",
-    "VertexEdgeIterImpl": "an edge is reached once per outgoing halfedge: a loop edge (from == to) has two at its vertex",
 }
 
 
@@ -432,7 +431,7 @@ def circulators(ck, fb):
             (ck.ok if (base_ok and inner_ok) else lambda r, w, t: ck.violate(r, w, t, "C05.laps:%s" % short))("C05.laps", f.where, "%s constructor forwards %s to its base%s" % (short, mlp[-1]["n"], " and to its inner circulator" if inner else ""))
         # set relations
         sname = short.split("<")[0]
-        if sname in ("VertexVertexIter", "CellFaceIterImpl", "VertexEdgeIterImpl") and ck.pid != "C05":
+        if sname in ("VertexVertexIter", "CellFaceIterImpl") and ck.pid != "C05":
             pass  # the audit's additions are judged under C05 only (other properties share the protocol rules, not this clause)
         elif sname in SET_RELATIONS and ctors:
             f = ctors[0]
